@@ -81,7 +81,14 @@ def build_evidence(prop, tier, seed, jobs, results, wall, nviol, known):
         ps["pruned_after_violation"] += r["pruned_after_violation"]
         ps["outside_claim"] += r.get("outside_claim", 0)
         for k, v in r.get("extra", {}).items():
-            if isinstance(v, (int, float)) and not isinstance(v, bool):
+            if k == "depth_completed":
+                h = ps["extra"].setdefault("depth_completed_histogram", {})
+                h[str(v)] = h.get(str(v), 0) + 1
+            elif k == "budget_stop":
+                ps["extra"]["configurations_stopped_by_transition_budget"] = (
+                    ps["extra"].get("configurations_stopped_by_transition_budget", 0) + 1
+                )
+            elif isinstance(v, (int, float)) and not isinstance(v, bool):
                 ps["extra"][k] = ps["extra"].get(k, 0) + v
             elif isinstance(v, list):
                 cur = ps["extra"].setdefault(k, [])
